@@ -26,7 +26,7 @@ func init() { register(&Check{ID: "C19", Run: runC19}) }
 
 var c19Chars = []string{"a", "é", "€", "٣", "0", "1", "x", "-", "\"", "`", " ", "\t", "\n", "\r", "#", "/", "=", "!", "(", ":"}
 
-var c19Seps = []string{" ", "\t", "\n", "\r\n", "  ", "\n\n", "# c\n", "// c\n", " # é\r\n\t", "# c\n \t# d\n", "// c\n\n  // d\n// e\n", "# d:\\x\\\n", " // c \\\n\t"} // the last two: comment text ending in a backslash
+var c19Seps = []string{" ", "\t", "\n", "\r\n", "  ", "\n\n", "# c\n", "// c\n", " # é\r\n\t", "# c\n \t# d\n", "// c\n\n  // d\n// e\n", "# d:\\x\\\n", " // c \\\n\t", "//\n", "#\n", " //\n\t#\n"} // comment text ending in a backslash; the last three: comments without any text
 
 var c19Lexemes = []string{
 	"script", "raw", "text", "movement", "mart", "mapscripts", "format", "var", "flag", "defeated", "TRUE", "FALSE", "true", "if", "else", "elif", "do", "while", "break", "continue", "switch", "case", "default", "global", "local", "poryswitch", "const", "value", "moves",
